@@ -14,6 +14,14 @@ claimed = {
    text="Deterministic simulation: Tflush is placed by construction and by the seeded scheduler at every stage of its target's life (same transport write, worker not yet started, queued behind a same-tag request, parked in the implementation with and without FlushOp, answering, already answered, flush of a flush, several flushes), the old tag is reused the moment Rflush arrives, and the wire order, the invocation log (step-stamped) and fid probes decide: one Rflush per Tflush, target reply never after its Rflush, no invocation after Rflush, no state left by cancelled requests.",
    note="Trusts the instrumenter, simulated transport, harness codec; 'immediately' is decided at the first quiescence with unrelated requests still parked. A Tflush of a Tflush that gets cancelled leaves its target outstanding (protocol reading stated in DESIGN.md).",
    technique="deterministic simulation: seeded scheduler placing flushes against request life stages; wire-order + step-stamped invocation log + probe oracle"),
+ "C08": dict(level="exploration", ref="§4 C08",
+   text="Deterministic simulation: a drawn subset of up to 6 outstanding requests is parked inside the scripted implementation; at every quiescence (decided exactly by the simulator: no goroutine can run) every other written request on the same and on other connections must already have its reply, requests issued meanwhile must be answered, and the parked ones are released in scheduler-chosen order with the same check after each release. Groups of 2..8 requests under one shared tag are checked against the step-stamped invocation log for one-at-a-time execution in arrival order and reply order.",
+   note="Trusts the instrumenter, the simulated transport (the peer always eventually reads, so back-pressure is only delay) and the harness codec.",
+   technique="deterministic simulation: scripted holds inside the implementation + quiescence oracle; invocation-log ordering for shared-tag groups"),
+ "C11": dict(level="exploration", ref="§4 C11",
+   text="Deterministic simulation: a victim connection with fids in every state and up to 4 requests parked in the implementation is disconnected (EOF, reset, mid-frame) at a drawn step, at a quiescence with requests parked, or idle; parked requests are released afterwards in scheduler-chosen order. Decided from the invocation log and the scheduler's goroutine table: ConnClosed exactly once, every fid shown to the implementation destroyed exactly once, every goroutine descending from the victim's NewConn finished at final quiescence, bystander and a later connection served.",
+   note="Trusts the instrumenter, the simulated transport and the scheduler's goroutine ancestry (spawn paths). File descriptors of Ufs are covered by the Ufs stratum once built.",
+   technique="deterministic simulation: transport cut as fault at drawn crash points + scripted holds; invocation-log and goroutine-table oracle at quiescence"),
 }
 na = {
  "C01": "pure function of (fields, dialect): no schedule, clock, fault or interleaving; deterministic simulation does not apply (DESIGN.md §1)",
